@@ -362,6 +362,81 @@ VIEW_ALPHABET = ["ctorp:0:97,98,99:2", "ctorp:1:97,98:2", "ctorp:0:-:0", "ctorz:
                  "cmp:4:0:1", "cmp:5:0:1", "cmpu:0:0:97,98", "cmpu:2:0:97,98,99", "cmpu:6:0:97,98"]
 
 
+# ------------------------------------------------------------------------------------------------
+# Trimming: white space is exactly {space, \t, \n, \r} as code-unit values, for every width.
+
+WS = [32, 9, 10, 13]
+
+
+def trim_units(w):
+    """Every unit a classifier could confuse with white space.  char: all 256 values (a signed char makes
+    every byte >= 0x80 negative, i.e. `<= ' '`); wide: the aliases of the four values modulo 64 / 0x100 /
+    0x10000 and with high bits set.  Deterministic (no PRNG): each value stands at both ends at least once."""
+    if w == "1":
+        return list(range(256))
+    u = list(range(0, 130)) + [x + 64 * j for x in WS for j in range(1, 8)] + [x + k * 0x100 for x in WS for k in range(1, 256)]
+    u += [0x8000 | x for x in WS] + [0xFF00 | x for x in WS]
+    if w == "4":
+        u += [x + k * 0x10000 for x in WS for k in list(range(1, 64)) + [0x100, 0x7FFF, 0xFFFF]]
+        u += [h | x for x in WS for h in (0x80000000, 0xFFFFFF00, 0xFFFF0000, 0x7FFFFFC0)]
+    seen, out = set(), []
+    for x in u:
+        if x not in seen:
+            seen.add(x); out.append(x)
+    return out
+
+
+def trim_programs(w):
+    progs = []
+    for c in trim_units(w):
+        progs.append("ctoru:0:%d,120,%d;trim:1:0;trim:0:0;trim:0:0" % (c, c))
+        progs.append("ctoru:0:32,%d,120,121,%d,9;trim:1:0;appch:1:%d;trim:2:1" % (c, c, c))
+        progs.append("ctoru:0:%d;trim:1:0;ctoru:2:%d,%d,10;trim:2:2" % (c, c, c))
+    return progs
+
+
+def trim_direct_lines(ctx, w):
+    """StringUtils::TrimLeft / TrimRight / Trim called directly with cursors."""
+    lines = []
+    for c in trim_units(w):
+        lines.append("seq-trim %s l 0 3 %d,120,%d" % (w, c, c))
+        lines.append("seq-trim %s r 0 3 %d,120,%d" % (w, c, c))
+        lines.append("seq-trim %s t 0 3 %d,120,%d" % (w, c, c))
+        lines.append("seq-trim %s l 1 4 120,%d,32,%d,9" % (w, c, c))
+        lines.append("seq-trim %s r 1 4 9,%d,32,%d,120" % (w, c, c))
+        lines.append("seq-trim %s t 1 3 32,%d,13,%d,10" % (w, c, c))
+        lines.append("seq-trim %s t 0 1 %d" % (w, c))
+    pool = trim_units(w)
+    rng = ctx.rng
+    for _ in range(1500 if not ctx.thorough else 40000):
+        n = rng.randrange(0, 10)
+        u = [rng.choice(WS) if rng.random() < 0.5 else rng.choice(pool) for _ in range(n)]
+        v = rng.choice("lrt")
+        off = rng.randrange(0, n + 1)
+        e = rng.randrange(off, n + 1) if v != "t" else rng.randrange(0, n - off + 1)
+        lines.append("seq-trim %s %s %d %d %s" % (w, v, off, e, su(u)))
+    return lines
+
+
+def run_trim_direct(ctx, exe, drv):
+    for w in ("1", "2", "4"):
+        lines = trim_direct_lines(ctx, w)
+        impl, faults = core.run_lines_parallel(exe, lines, jobs=12)
+        impl = [o.split(" ##L ")[0] for o in impl]
+        model, _ = core.run_lines_parallel(drv, lines, jobs=12, env=None)
+        for i, k, err in faults:
+            ctx.fail("fault:" + k, "sanitizer fault (%s) in StringUtils::Trim* on %s" % (k, lines[i]), {"line": lines[i], "stderr": err})
+        keep = [i for i in range(len(lines)) if not impl[i].startswith("FAULT")]
+        ctx.correspond("StringUtils::Trim*<%s>" % w, [lines[i] for i in keep], [impl[i] for i in keep], [model[i] for i in keep])
+        spec, _ = core.run_lines_parallel(drv, [lines[i].replace("seq-trim ", "seq-trim-spec ", 1) for i in keep], jobs=12, env=None)
+        nfail = 0
+        for j, i in enumerate(keep):
+            if impl[i] != spec[j] and nfail < 12:
+                nfail += 1
+                ctx.fail("oracle:trim-not-whitespace-only", "StringUtils::Trim* moved a cursor over a unit that is not space/tab/LF/CR (or stopped at one): %s -> %s, plain reading %s" % (lines[i], impl[i], spec[j]),
+                         {"line": lines[i], "impl_output": impl[i], "list_spec": spec[j]})
+
+
 def exhaustive(alphabet, depth, prologues):
     out = []
     for p in prologues:
@@ -637,6 +712,7 @@ def run_area(ctx):
             progs += exhaustive(alpha[::2], depth, ["ctoru:0:32,97,98,32;ctoru:1:99"])
         for _ in range(2500 if not T else 30000):
             progs.append(gen_string(rng, rng.choice([3, 8, 20, 40] if not T else [8, 20, 60, 120]), w, flags))
+        progs += trim_programs(w)     # every unit value (char) / every white-space alias (wide) at both ends of a trimmed string
         lines = [l for l in of_kind("seq-string") if l.split(" ")[1] == w] + ["seq-string %s %s" % (w, p) for p in progs]
         run_stream_of_programs(ctx, "string<%s>" % w, "string", h_x, drv, lines)
     # ---- StringStream, both capacity policies ---------------------------------------------------
@@ -657,6 +733,8 @@ def run_area(ctx):
             progs.append(gen_view(rng, rng.choice([3, 8, 20]), w))
         lines = [l for l in of_kind("seq-view") if l.split(" ")[1] == w] + ["seq-view %s %s" % (w, p) for p in progs]
         run_stream_of_programs(ctx, "view<%s>" % w, "view", h_x, drv, lines)
+    # ---- StringUtils::TrimLeft / TrimRight / Trim called directly --------------------------------
+    run_trim_direct(ctx, h_x, drv)
     # ---- Memory::Copy / SetToZero ---------------------------------------------------------------
     run_mem(ctx, drv)
     ctx.assumptions += ["sizes are Nat in the model: no 32-bit SizeT wrap-around (all sizes in the runs are < 2^13)",
